@@ -78,3 +78,23 @@ package k8s_internal
 //@   trust [namesWrappedPlugin] result != nil && preFilterOf(result, nodePreFilter)
 //@   note naming device: the closure returned for nodePreFilter is given the name preFilterOf(., nodePreFilter); the body only builds that closure
 //@ end
+
+// ===== section owned by helper plug2 (podaffinity plugin: the two scoring hooks of SessionScoreFns) =====
+// ASSUMED: the pre-score / score wrappers of the upstream InterPodAffinity plugin are library code behind a function
+// value. Their answers are NAMED (function of the function value and the arguments): preScoreStatus(f, pod) is the
+// *Status returned by PreScoreFn f for pod (the node list is a slice, it is not part of the name), podScore /
+// podScoreFails name the score and whether an error is returned by ScorePredicate f for (pod, nodeInfo). Evaluating
+// them changes nothing the scheduler's model reads (the upstream plugin writes the per-pod CycleState only).
+//@ declare preScoreStatus(f ref, pod ref) ref
+//@ declare podScore(f ref, pod ref, node ref) int
+//@ declare podScoreFails(f ref, pod ref, node ref) bool
+//@ func type:PreScoreFn
+//@   pure
+//@   ensures [assumed] result == preScoreStatus(fn, pod)
+//@   note assumed: the status returned by a PreScoreFn value is named by preScoreStatus(fn, pod); nothing the scheduler's model reads is written
+//@ end
+//@ func type:ScorePredicate
+//@   pure
+//@   ensures [assumed] result0 == podScore(fn, pod, nodeInfo) && (result2 != nil) == podScoreFails(fn, pod, nodeInfo)
+//@   note assumed: score and error of a ScorePredicate value are named by podScore / podScoreFails (fn, pod, nodeInfo); nothing the scheduler's model reads is written
+//@ end
